@@ -187,7 +187,27 @@ def dict_only_models():
     wn = base_model(0)
     wn.add_pipe("P7", "J6", "J8", length=90.0, diameter=0.2, roughness=95.0, check_valve=True)
     wn.get_link("P7").initial_status = LinkStatus.Closed          # a check-valve pipe that starts closed (set on the element, not through add_pipe)
-    return [("feature:dict_only", wn)]
+    out = [("feature:dict_only", wn)]
+    # options in states the setters allow in one order only, and entries that are None
+    w2 = base_model(1)
+    w2.options.time.quality_timestep = 300
+    w2.options.time.rule_timestep = 300
+    w2.options.time.hydraulic_timestep = 60          # lowered afterwards: quality and rule steps are now longer than the hydraulic step
+    w2.options.time.report_timestep = 30
+    w2.options.time.pattern_timestep = 45
+    w2.options.hydraulic.pattern = None                # no default demand pattern
+    w2.options.hydraulic.unbalanced_value = None
+    w2.options.quality.parameter = "NONE"
+    out.append(("feature:options_set_in_another_order_and_none_entries", w2))
+    # a model that has been simulated and not reset (it carries results: heads, demands, leak demands, statuses, the clock)
+    import wntr
+    import os
+    w3 = wntr.network.WaterNetworkModel(os.path.join(repo_root(), "examples/networks/Net1.inp"))
+    w3.options.time.duration = 3 * 3600
+    w3.get_node("22").add_leak(w3, area=0.0005, start_time=0, end_time=7200)
+    wntr.sim.WNTRSimulator(w3).run_sim()
+    out.append(("feature:simulated_and_not_reset", w3))
+    return out
 
 
 def rule_tree_models():
@@ -241,9 +261,9 @@ def all_models(tier):
 
 
 def normalize_json(x):
-    """JSON normalisation allowed by the property: tuples -> lists"""
+    """JSON normalisation allowed by the property: tuples -> lists; an empty pattern name is no pattern"""
     if isinstance(x, dict):
-        return {k: normalize_json(v) for k, v in x.items()}
+        return {k: (None if (v == "" and isinstance(k, str) and k.endswith("pattern")) or (v == "" and k == "pattern_name") else normalize_json(v)) for k, v in x.items()}
     if isinstance(x, (list, tuple)):
         return [normalize_json(v) for v in x]
     try:
